@@ -24,15 +24,28 @@
    * the case theorems (unset, remove, re-pointing 1-1 / 1-n, append n-1 / n-n,
      and linking through a self-opposite feature, single- and many-valued) are
      kept as separate `_partial` statements.
-   REMAINS (not a theorem): metamodels WITH containment features, i.e. the
-   interplay of opposite updates with _update_container (an object moved to a
-   new container is removed from / unset in its previous container's slot, and
-   Resource.append detaches a contained object); that part is carried by the
-   model/implementation correspondence and the symmetric-pair oracle
-   (harness/props/c01.py).  No case of the no-containment property was found
-   false of the model. *)
+   PROVED, for every well-formed metamodel WITH OR WITHOUT CONTAINMENT (`wf_mm m`:
+   eOpposite an involution between references, many-valued bidirectional or
+   containment ends unique, the opposite of a containment a single-valued
+   non-containment container end):
+   * C01_step_with_containment: the global invariant `WF m s` — opposite
+     symmetry, slot shape, container back-pointers = containment slots, root
+     lists = eResource, roots uncontained — is preserved by EVERY operation,
+     including every interplay of opposite updates with _update_container (a
+     child moved to a new container leaves its previous slot and that slot's
+     opposite end, setting the container end re-parents the owner,
+     Resource.append detaches a contained object, x.f = x, containment cycles).
+   * C01_symmetric_in_every_reachable_state: hence `y in x.r <-> x in y.r'`
+     for every declared pair after every history from the initial state.
+   Proofs: Proofs/WFBase.v, WFRemove.v, SymLink.v (linking direction reduced to
+   the no-containment theorem on the containment-erased metamodel after an
+   explicit pre-unlink), OwnPrim/OwnAdd/OwnSet/OwnColl/OwnAll.v.
+   No case of the property was found false of the model.  Not covered by a
+   theorem: slice assignment (not modelled; oracle only) and metamodels outside
+   `wf_mm` (e.g. a non-unique many-valued bidirectional end, which EMF rejects). *)
 From Coq Require Import ZArith List Bool Arith.
-From PyecoreV Require Import Lib.PyBase Lib.PyList Model.Kernel Proofs.KernelFacts Proofs.C01Proofs Proofs.C01Full.
+From PyecoreV Require Import Lib.PyBase Lib.PyList Model.Kernel Proofs.KernelFacts Proofs.C01Proofs Proofs.C01Full
+  Proofs.WFBase Proofs.SymLink Proofs.OwnAll Proofs.WFCorollaries.
 Import ListNotations.
 
 Theorem C01_unset_keeps_symmetry_partial :
@@ -120,13 +133,13 @@ Print Assumptions C01_append_self_opposite_keeps_symmetry_partial.
 (* every operation of `step` keeps symmetry + shape, in metamodels without containment *)
 Theorem C01_step_no_containment :
   forall m, no_containment m -> wf_opp m ->
-  forall s o, Inv m s -> op_fits m o -> Inv m (next m s o).
+  forall s o, Inv m s -> C01Full.op_fits m o -> Inv m (next m s o).
 Proof. exact sym_step. Qed.
 Print Assumptions C01_step_no_containment.
 
 Theorem C01_every_history_no_containment :
   forall m, no_containment m -> wf_opp m ->
-  forall ops, ref_defaults_none m -> Forall (op_fits m) ops ->
+  forall ops, ref_defaults_none m -> Forall (C01Full.op_fits m) ops ->
     Inv m (fold_left (next m) ops (init_state m)).
 Proof. exact sym_history. Qed.
 Print Assumptions C01_every_history_no_containment.
@@ -189,3 +202,21 @@ Theorem C01_premises_satisfiable :
   no_containment ex_mm_self /\ wf_opp ex_mm_self /\ ref_defaults_none ex_mm_self.
 Proof. exact ex_mm_self_ok. Qed.
 Print Assumptions C01_premises_satisfiable.
+
+(* ---------- with containment: the global invariant ---------- *)
+Theorem C01_step_with_containment :
+  forall m, wf_mm m -> forall s o, WF m s -> op_many m o -> WF m (next m s o).
+Proof. exact WF_step. Qed.
+Print Assumptions C01_step_with_containment.
+
+Theorem C01_symmetric_in_every_reachable_state :
+  forall m, wf_mm m -> ref_defaults_none m -> forall ops, Forall (op_many m) ops ->
+  sym m (fold_left (next m) ops (init_state m)).
+Proof. exact reach_sym. Qed.
+Print Assumptions C01_symmetric_in_every_reachable_state.
+
+(* non-vacuity: a metamodel with a many containment with opposite, a single containment without
+   opposite and a 1-1 containment pair meets the premises; WF_covers_cycles (Proofs/OwnAll.v) runs a
+   history with re-parenting, x.twin = x and a resource append through the theorem *)
+Example C01_containment_premises_satisfiable : wf_mm ex_mm_link /\ ref_defaults_none ex_mm_link.
+Proof. exact ex_mm_link_wf. Qed.
